@@ -20,8 +20,8 @@ import (
 	"bytes"
 	"fmt"
 	"go/token"
-	"os"
 	"go/types"
+	"os"
 	"reflect"
 	"sort"
 	"strings"
@@ -144,8 +144,8 @@ type viewBuilder struct {
 	depth map[ssa.Instruction]int
 	stack map[ssa.Instruction][]*ssa.Function
 	// Origin of every cloned instruction (the instruction of the real program it was copied from)
-	origin map[ssa.Instruction]ssa.Instruction
-	nInl   int
+	origin  map[ssa.Instruction]ssa.Instruction
+	nInl    int
 	inlined map[*ssa.Function]bool
 	// closures whose call was inlined, and the captured variables they were bound to
 	closureInlined    map[*ssa.MakeClosure]bool
@@ -258,6 +258,11 @@ func (vb *viewBuilder) inlinable(c *ssa.Call) (*ssa.Function, *ssa.MakeClosure) 
 	// only helpers of the root's own package are inlined: calls that leave the package are API
 	// calls the rules recognise by their callee
 	if g.Pkg != vb.root.Pkg {
+		return nil, nil
+	}
+	// exported functions and methods are the package's API: rules recognise calls to them by
+	// callee, and a refactoring extracts unexported helpers (or closures), not API
+	if mc == nil && g.Object() != nil && g.Object().Exported() {
 		return nil, nil
 	}
 	for _, s := range vb.stack[c] {
@@ -1169,19 +1174,50 @@ func (p *Prog) RootViews(rels []string, keepKey string, keep func(*ssa.Function)
 	}
 	var out []*ssa.Function
 	inlinedSomewhere := map[string]bool{}
-	for _, f := range p.ModFns {
-		if !inRel(f) || helper[f] {
-			continue
-		}
+	done := map[*ssa.Function]bool{}
+	addRoot := func(f *ssa.Function) {
 		v := p.View(f, keepKey, keep)
 		out = append(out, v)
 		for _, n := range viewInfo[v].inlined {
 			inlinedSomewhere[n] = true
 		}
+		done[f] = true
 	}
 	for _, f := range p.ModFns {
-		if inRel(f) && helper[f] && !inlinedSomewhere[FnName(f)] {
-			out = append(out, p.View(f, keepKey, keep))
+		if inRel(f) && !helper[f] {
+			addRoot(f)
+		} else if !inRel(f) {
+			done[f] = true
+		}
+	}
+	// helpers, callers first: a helper whose callers are all settled is either inlined somewhere
+	// (judged there) or was kept as a call everywhere (judged on its own, with its own helpers inlined)
+	for progress := true; progress; {
+		progress = false
+		for _, f := range p.ModFns {
+			if done[f] || !inRel(f) {
+				continue
+			}
+			settled := true
+			for _, r := range refs[f] {
+				if !done[r.in] {
+					settled = false
+				}
+			}
+			if !settled {
+				continue
+			}
+			if inlinedSomewhere[FnName(f)] {
+				done[f] = true
+			} else {
+				addRoot(f)
+			}
+			progress = true
+		}
+	}
+	for _, f := range p.ModFns {
+		if inRel(f) && !done[f] {
+			addRoot(f) // call cycles among helpers
 		}
 	}
 	sort.Slice(out, func(i, j int) bool {
@@ -1202,4 +1238,12 @@ func originFnName(view *ssa.Function, in ssa.Instruction) string {
 		return FnName(m.root)
 	}
 	return FnName(view)
+}
+
+// viewRoot: the real function a view was built from (f itself if it is not a view).
+func viewRoot(f *ssa.Function) *ssa.Function {
+	if m := viewInfo[f]; m != nil {
+		return m.root
+	}
+	return f
 }
